@@ -1,5 +1,6 @@
 import ZChain.Proofs.LedgerStep
 import ZChain.Generated.C04
+import ZChain.Proofs.FreeMarkers
 /-!
 # C04 — Transactions debit only what their sender authorised
 
@@ -438,3 +439,47 @@ example : (get (step true c04S c04T (.ok [] [⟨3, 7, 100, true⟩, ⟨7, 5, 40,
 example : (get (step true c04S c04T (.ok [] [⟨3, 7, 100, true⟩, ⟨7, 5, 40, true⟩] [])).1.accts 7).balance = 5060 := by decide
 
 end ZChain.TransferSites
+
+/-! ### each signed authorisation is honoured at most once: the free-storage marker book
+
+`Model/FreeMarkers.lean` transcribes `addFreeStorageAssigner` / `freeStorageAssigner.validate` and the
+bookkeeping of `freeAllocationRequest`; it is run against the real contract by `harness/cmd/c04` (every
+`add_free_storage_assigner` / `free_allocation_request` transaction is shadowed by an `fsa` / `frm` line). -/
+namespace ZChain.FreeMarkers
+
+/-- **redeemed_only_grows**: over ANY sequence of registrations (first, repeated, by the owner or not, with the
+same or other limits and keys) and redemptions, a nonce once recorded for an assigner stays recorded. -/
+theorem redeemed_only_grows (ops : List Op) (b : Book) (n : Nat) (x : Int) (h : x ∈ redeemedOf b n) :
+    x ∈ redeemedOf (run b ops) n := run_keeps ops b n x h
+
+/-- re-registration of an assigner — whatever the new limits and key — keeps what it has redeemed. -/
+theorem reregistration_keeps_redeemed (b : Book) (byOwner : Bool) (n key individual total : Nat) (x : Int)
+    (h : x ∈ redeemedOf b n) : x ∈ redeemedOf (register b byOwner n key individual total).1 n :=
+  register_keeps b byOwner n key individual total n x h
+
+/-- **replay_refused_in_every_reachable_state**: once marker (n, x) was honoured, it is refused in every state
+reachable afterwards, whatever governance calls and other redemptions came in between and however the replay is
+signed or sized. -/
+theorem replay_refused_in_every_reachable_state (b : Book) (n k : Nat) (i r : Bool) (c : Nat) (x : Int) (l : Bool)
+    (hacc : (redeem b n k i r c x l).2 = .accept) (ops : List Op)
+    (k' : Nat) (i' r' : Bool) (c' : Nat) (l' : Bool) :
+    (redeem (run (redeem b n k i r c x l).1 ops) n k' i' r' c' x l').2 ≠ .accept :=
+  used_nonce_refused _ n k' i' r' c' x l' (run_keeps ops _ n x (accept_records b n k i r c x l hacc))
+
+/-- **marker_honoured_at_most_once**: along any history from any state, a marker nonce of an assigner is
+honoured at most once. -/
+theorem marker_honoured_at_most_once (b : Book) (ops : List Op) (n : Nat) (x : Int) :
+    timesHonoured b n x ops ≤ 1 := timesHonoured_le_one ops b n x
+
+-- non-vacuity: redeem nonce 5, the owner re-registers the assigner with ANOTHER total and individual limit and
+-- another key, the same marker (re-signed with the new key) comes again: refused for its nonce; a fresh one passes.
+def exOps : List Op :=
+  [.reg true 7 1 200 1000, .red 7 1 true true 50 5 true, .reg true 7 2 300 2000, .red 7 2 true true 50 5 true,
+   .red 7 2 true true 50 3 true]
+example : (redeem (run [] (exOps.take 1)) 7 1 true true 50 5 true).2 = .accept := by decide
+example : (redeem (run [] (exOps.take 3)) 7 2 true true 50 5 true).2 = .nonceUsed := by decide
+example : (redeem (run [] (exOps.take 4)) 7 2 true true 50 3 true).2 = .accept := by decide
+example : timesHonoured [] 7 5 exOps = 1 := by decide
+example : redeemedOf (run [] exOps) 7 = [5, 3] := by decide
+
+end ZChain.FreeMarkers
